@@ -79,7 +79,7 @@ Definition respond_all (n : node) (fids : list N) (r : fresult) : node :=
 (* ---------------- small state transitions ---------------- *)
 (* newOperationManager: empty tables, shouldVerifyQuorum = true, lease expires now *)
 Definition new_opmanager (now : N) (n : node) : node :=
-  n <| n_pending := [] |> <| n_ro := [] |> <| n_should_verify := true |> <| n_lease := now |>.
+  n <| n_pending := [] |> <| n_ro := [] |> <| n_should_verify := true |> <| n_hb_rounds := 0 |> <| n_lease := now |>.
 
 Definition notify_lost_leadership (n : node) : node :=
   respond_all (respond_all n (map ro_fid (n_ro n)) FNotLeader) (map snd (n_pending n)) FNotLeader.
